@@ -19,10 +19,33 @@ def names_of(formula):
     return out
 
 
+def ad_constraints_incomplete(formula):
+    """two atoms of one annotated-disjunction group that no common constraint of the formula mentions (the mutual exclusion is lost)"""
+    groups = {}
+    for key, node, ntype in formula:
+        if ntype == "atom" and node.group is not None and not node.is_extra:
+            groups.setdefault(node.group, []).append(key)
+    cons = []
+    for c in formula.constraints():
+        try:
+            cons.append(set(abs(x) for x in c.get_nodes()))
+        except Exception:  # noqa
+            pass
+    for g, keys in groups.items():
+        if len(keys) >= 2 and not any(set(keys) <= cs for cs in cons):
+            return g, keys
+    return None
+
+
 def validate_break_cycles(src, dag, max_atoms):
     uni = atom_universe(src)
     if len(uni) > max_atoms:
         return ("skip", "too many atoms")
+    bad = ad_constraints_incomplete(src)
+    if bad is not None:
+        # the INPUT of the transformation is already inconsistent (a grounder defect seen at this hook): the DAG rebuilds the constraint
+        return ("viol", "break_cycles:source-ad-constraint-incomplete", "the ground program handed to break_cycles has atoms %r of AD group %r "
+                "without a common mutual-exclusion constraint" % (bad[1], bad[0]))
     for ident in atom_universe(dag):
         if ident not in uni:
             return ("viol", "break_cycles:new-atom", "DAG contains atom %r that the source formula does not" % (ident,))
